@@ -546,6 +546,7 @@ func (c *C03AllPerms) Run() string {
 		}
 		sub := &C03Case{DT: c.DT, Shape: c.Shape, L: c.L, Prog: prog}
 		resetLib()
+		rec.Eval()
 		if msg := sub.Run(); msg != "" && msg != inconclusive {
 			return msg
 		}
